@@ -187,4 +187,22 @@ Theorem C04_search_solve_no_fuel :
   noerr st -> noerr (fst (solve W lvs (main_fuel W) depth st lv ws first)).
 Proof. exact solve_no_fuel_err. Qed.
 
+(* END TO END, on the composed model Model/Format.v: format_model (the stage models folded over the stage list GENERATED from make_formatter,
+   from the input bytes to the output bytes; tied to the implementation byte for byte and stage by stage by unit e2e). Totality: the composed
+   run returns an output unless the parser model's own explicit error value (grammar fuel or one of three named panic sites) is hit; lexer
+   fuel, generics, the directive consolidator's underflow and the search's fuel are excluded for every input. *)
+From PasfmtVerif Require Import Model.Format Proofs.FormatProofs Proofs.FormatTotalProofs Proofs.FormatWrapProofs Proofs.FormatIgnoredProofs Proofs.FormatVerbatimProofs Proofs.FormatLayoutProofs Proofs.FormatRescanProofs Proofs.FormatContentProofs Proofs.FormatMLProofs Proofs.FormatContentMLProofs Proofs.FormatEofProofs.
+Theorem C04_format_total :
+  forall (alnum : bytes -> bool) (cfg : fconfig) (s : bytes),
+  (exists out : bytes, format_model alnum cfg s = inl out) \/
+  (exists pe : perr, format_model alnum cfg s = inr (FE_parse pe)).
+Proof. exact format_total. Qed.
+
+Theorem C04_format_fails_only_in_parser :
+  forall (alnum : bytes -> bool) (cfg : fconfig) (s : bytes) (e : ferr),
+  format_model alnum cfg s = inr e ->
+  exists (segs : list seg) (pe : perr),
+    lex_segments s = Some segs /\ r_err (fm_parse segs) = Some pe /\ e = FE_parse pe.
+Proof. exact format_fails_only_in_parser. Qed.
+
 
